@@ -223,10 +223,10 @@ theorem walk_udp (g : Mem) (k : Nat) (p : Packet) (o n : Nat) (lim : Dec.LenSour
   rw [walkN_next false g k p _ _ _ _ _ (by simp) hs, walkN_done]
 
 theorem walk_tcp (g : Mem) (k : Nat) (p : Packet) (o n : Nat) (lim : Dec.LenSource) (ne : Nat) (h : Tcp)
-    (wf : h.WF) (hh : Holds g o (Tcp.toBytes h)) :
+    (wo : h.opts.WF) (hh : Holds g o (Tcp.toBytes h)) :
     walkN false g (k + 1) p (.tp 6) { off := o, stop := o + (h.headerLen + n), lim := lim, nExt := ne }
       = (setTp p (.tcp ⟨o, h.headerLen + n⟩ h.headerLen), none) := by
-  obtain ⟨_, _, _, _, _, _, _, ho1, ho2, ho3, _⟩ := wf
+  obtain ⟨ho1, ho2, ho3, _⟩ := wo
   have hl := tcp_len h ho3 ho1
   have hf : g (o + 12) / 16 * 4 = h.headerLen := by
     rw [hh.at 12 (by omega), tcp_dataOffset h ho1 ho2, Tcp.headerLen]
@@ -283,11 +283,14 @@ theorem v4Fragmented_eq (g : Mem) (o : Nat) (h : Ipv4Header) (hfo : h.fragmentOf
 
 /-- the IPv4 layer of a packet whose header is `h` (at `o`), with `al` bytes of authentication
     header and `rest` bytes behind -/
-def expIpv4 (o : Nat) (h : Ipv4Header) (auth : Option Win) (num al rest : Nat) : IpR :=
-  { v4 := true, hdr := ⟨o, 20 + h.options.length⟩, auth := auth, exts := ⟨o, 0⟩, first := none,
+def expIpv4 (o ol : Nat) (frag : Bool) (auth : Option Win) (num al rest : Nat) : IpR :=
+  { v4 := true, hdr := ⟨o, 20 + ol⟩, auth := auth, exts := ⟨o, 0⟩, first := none,
     slots := ExtSlots.none,
-    pl := { num := num, frag := h.moreFragments || decide (h.fragmentOffset ≠ 0), src := .ipv4HeaderTotalLen,
-            w := ⟨o + (20 + h.options.length) + al, rest⟩, inc := false } }
+    pl := { num := num, frag := frag, src := .ipv4HeaderTotalLen,
+            w := ⟨o + (20 + ol) + al, rest⟩, inc := false } }
+
+/-- RFC 791 fragmentation of a header value: more-fragments flag or a fragment offset -/
+def v4Frag (h : Ipv4Header) : Bool := h.moreFragments || decide (h.fragmentOffset ≠ 0)
 
 theorem step_ipv4_plain (g : Mem) (p : Packet) (o S : Nat) (lim : Dec.LenSource) (ne : Nat) (h : Ipv4Header)
     (rest : Nat) (ho : h.options.length ≤ 40) (ho4 : h.options.length % 4 = 0) (hfo : h.fragmentOffset < 8192)
@@ -296,8 +299,8 @@ theorem step_ipv4_plain (g : Mem) (p : Packet) (o S : Nat) (lim : Dec.LenSource)
     (htl : h.totalLen = 20 + h.options.length + rest) (hfit : h.totalLen < 65536)
     (hh : Holds g o h.toBytes) (hS : o + h.totalLen ≤ S) :
     Spec.step false g p .ipv4 { off := o, stop := S, lim := lim, nExt := ne }
-      = ⟨setNet p (.ip (expIpv4 o h none h.protocol 0 rest)),
-         if (h.moreFragments || decide (h.fragmentOffset ≠ 0)) then .done else .tp h.protocol,
+      = ⟨setNet p (.ip (expIpv4 o h.options.length (v4Frag h) none h.protocol 0 rest)),
+         if v4Frag h then .done else .tp h.protocol,
          { off := o + (20 + h.options.length), stop := o + h.totalLen, lim := .ipv4HeaderTotalLen, nExt := ne },
          none⟩ := by
   have hl := ipv4_len h hs hd ho
@@ -315,7 +318,7 @@ theorem step_ipv4_plain (g : Mem) (p : Packet) (o S : Nat) (lim : Dec.LenSource)
   have a4 : ¬ (S - o < h.totalLen) := by omega
   simp only [Spec.step, Ctx.avail, bound, g0a, g0b, g0c, g2, g6, g9, a1, a2, a3, a4, hn51, if_false]
   have e : o + h.totalLen - (o + (20 + h.options.length)) = rest := by omega
-  simp [expIpv4, inherit, e]
+  simp [expIpv4, v4Frag, inherit, e]
 
 
 theorem step_ipv4_auth (g : Mem) (p : Packet) (o S : Nat) (lim : Dec.LenSource) (ne : Nat) (h : Ipv4Header)
@@ -325,9 +328,9 @@ theorem step_ipv4_auth (g : Mem) (p : Packet) (o S : Nat) (lim : Dec.LenSource) 
     (htl : h.totalLen = 20 + h.options.length + a.headerLen + rest) (hfit : h.totalLen < 65536)
     (hh : Holds g o (h.toBytes ++ a.toBytes)) (hS : o + h.totalLen ≤ S) :
     Spec.step false g p .ipv4 { off := o, stop := S, lim := lim, nExt := ne }
-      = ⟨setNet p (.ip (expIpv4 o h (some ⟨o + (20 + h.options.length), a.headerLen⟩) a.nextHeader
+      = ⟨setNet p (.ip (expIpv4 o h.options.length (v4Frag h) (some ⟨o + (20 + h.options.length), a.headerLen⟩) a.nextHeader
             a.headerLen rest)),
-         if (h.moreFragments || decide (h.fragmentOffset ≠ 0)) then .done else .tp a.nextHeader,
+         if v4Frag h then .done else .tp a.nextHeader,
          { off := o + (20 + h.options.length) + a.headerLen, stop := o + h.totalLen,
            lim := .ipv4HeaderTotalLen, nExt := ne },
          none⟩ := by
@@ -357,7 +360,7 @@ theorem step_ipv4_auth (g : Mem) (p : Packet) (o S : Nat) (lim : Dec.LenSource) 
   have e : o + h.totalLen - (o + (20 + h.options.length) + a.headerLen) = rest := by omega
   simp only [Spec.step, Ctx.avail, bound, g0a, g0b, g0c, g2, g6, g9, a1, a2, a3, a4, if_false, if_true,
     c0, c1, b1, b2, a5, a6]
-  simp [expIpv4, inherit, e]
+  simp [expIpv4, v4Frag, inherit, e]
 
 /-! ### IPv6 extension chain -/
 
@@ -594,9 +597,9 @@ theorem chain_exts (g : Mem) (lim : Dec.LenSource) (stop num : Nat) (e : Ipv6Ext
 
 /-- the IPv6 layer of a packet whose header is `h` (at `o`), with `el` bytes of extension headers
     and `rest` bytes behind -/
-def expIpv6 (o : Nat) (h : Ipv6Header) (num el rest : Nat) (frag : Bool) : IpR :=
+def expIpv6 (o first num el rest : Nat) (frag : Bool) : IpR :=
   { v4 := false, hdr := ⟨o, 40⟩, auth := none, exts := ⟨o + 40, el⟩,
-    first := if el = 0 then none else some h.nextHeader, slots := ExtSlots.none,
+    first := if el = 0 then none else some first, slots := ExtSlots.none,
     pl := { num := num, frag := frag, src := .ipv6HeaderPayloadLen, w := ⟨o + 40 + el, rest⟩, inc := false } }
 
 theorem step_ipv6 (g : Mem) (p : Packet) (o : Nat) (lim : Dec.LenSource) (ne : Nat) (h : Ipv6Header)
@@ -606,7 +609,7 @@ theorem step_ipv6 (g : Mem) (p : Packet) (o : Nat) (lim : Dec.LenSource) (ne : N
     (hh : Holds g o (h.toBytes ++ eb))
     (hc : ChainRes g .ipv6HeaderPayloadLen (o + (40 + h.payloadLength)) num true h.nextHeader eb false fo) :
     Spec.step false g p .ipv6 { off := o, stop := o + (40 + h.payloadLength), lim := lim, nExt := ne }
-      = ⟨setNet p (.ip (expIpv6 o h num eb.length rest fo)),
+      = ⟨setNet p (.ip (expIpv6 o h.nextHeader num eb.length rest fo)),
          if fo then .done else .tp num,
          { off := o + 40 + eb.length, stop := o + (40 + h.payloadLength), lim := .ipv6HeaderPayloadLen, nExt := ne },
          none⟩ := by
@@ -628,5 +631,337 @@ theorem step_ipv6 (g : Mem) (p : Packet) (o : Nat) (lim : Dec.LenSource) (ne : N
   have e3 : (o + 40 + eb.length = o + 40) ↔ eb.length = 0 := by omega
   simp only [Spec.step, Ctx.avail, bound, g0, g4, g6, a1, a2, a3, a4, if_false, inherit]
   simp [hch, expIpv6, e1, e2, e3]
+
+/-! ### link layer and ether type dispatch -/
+
+theorem step_eth (g : Mem) (p : Packet) (o S : Nat) (lim : Dec.LenSource) (ne : Nat) (hS : o + 14 ≤ S) :
+    Spec.step false g p .eth { off := o, stop := S, lim := lim, nExt := ne }
+      = ⟨setLink p (.eth2 ⟨o, S - o⟩), .ether (g16 g (o + 12)), { off := o + 14, stop := S, lim := lim, nExt := ne },
+         none⟩ := by
+  have a1 : ¬ (S - o < 14) := by omega
+  simp [Spec.step, Ctx.avail, a1]
+
+theorem step_sll (g : Mem) (p : Packet) (o S : Nat) (lim : Dec.LenSource) (ne : Nat) (et : Nat) (hS : o + 16 ≤ S)
+    (h0 : g16 g o ≤ 7) (h2 : g16 g (o + 2) = 1) (h14 : g16 g (o + 14) = et) (hns : sllNonStandard et = false) :
+    Spec.step false g p .sll { off := o, stop := S, lim := lim, nExt := ne }
+      = ⟨setLink p (.sll ⟨o, S - o⟩), .ether et, { off := o + 16, stop := S, lim := lim, nExt := ne }, none⟩ := by
+  have a1 : ¬ (S - o < 16) := by omega
+  have a2 : ¬ (g16 g o > 7) := by omega
+  simp [Spec.step, Ctx.avail, a1, a2, h2, h14, hns, sllSupportedHw]
+
+theorem step_vlan (g : Mem) (p : Packet) (o S : Nat) (lim : Dec.LenSource) (ne : Nat) (et : Nat)
+    (hv : isVlanType et = true) (hne : ne ≠ 3) (hS : o + 4 ≤ S) :
+    Spec.step false g p (.ether et) { off := o, stop := S, lim := lim, nExt := ne }
+      = ⟨addExt p (.vlan ⟨o, S - o⟩), .ether (g16 g (o + 2)),
+         { off := o + 4, stop := S, lim := lim, nExt := ne + 1 }, none⟩ := by
+  have a1 : ¬ (S - o < 4) := by omega
+  simp [Spec.step, Ctx.avail, a1, hv, hne]
+
+theorem step_ether_ipv4 (g : Mem) (p : Packet) (c : Ctx) :
+    Spec.step false g p (.ether 0x0800) c = ⟨p, .ipv4, c, none⟩ := by
+  simp [Spec.step, isVlanType]
+
+theorem step_ether_ipv6 (g : Mem) (p : Packet) (c : Ctx) :
+    Spec.step false g p (.ether 0x86dd) c = ⟨p, .ipv6, c, none⟩ := by
+  simp [Spec.step, isVlanType]
+
+theorem step_ether_arp (g : Mem) (p : Packet) (o S : Nat) (lim : Dec.LenSource) (ne : Nat) (a : Arp) (wf : a.WF)
+    (hh : Holds g o a.toBytes) (hS : o + a.headerLen ≤ S) :
+    Spec.step false g p (.ether 0x0806) { off := o, stop := S, lim := lim, nExt := ne }
+      = ⟨setNet p (.arp ⟨o, a.headerLen⟩), .done, { off := o + a.headerLen, stop := S, lim := lim, nExt := ne },
+         none⟩ := by
+  have hl := arp_len a wf
+  have h8 : 8 ≤ a.headerLen := by unfold Arp.headerLen; omega
+  have hf := arp_fields a wf
+  have g4 : g (o + 4) = bAt a.toBytes 4 := hh.at 4 (by omega)
+  have g5 : g (o + 5) = bAt a.toBytes 5 := hh.at 5 (by omega)
+  have a1 : ¬ (S - o < 8) := by omega
+  have a2 : ¬ (S - o < a.headerLen) := by omega
+  simp [Spec.step, Ctx.avail, isVlanType, a1, g4, g5, hf, a2]
+
+theorem step_ipAny4 (g : Mem) (p : Packet) (o S : Nat) (lim : Dec.LenSource) (ne : Nat)
+    (hS : o + 1 ≤ S) (h : g o / 16 = 4) :
+    Spec.step false g p .ipAny { off := o, stop := S, lim := lim, nExt := ne }
+      = ⟨p, .ipv4, { off := o, stop := S, lim := lim, nExt := ne }, none⟩ := by
+  have a1 : ¬ (S - o < 1) := by omega
+  simp [Spec.step, Ctx.avail, a1, h]
+
+theorem step_ipAny6 (g : Mem) (p : Packet) (o S : Nat) (lim : Dec.LenSource) (ne : Nat)
+    (hS : o + 1 ≤ S) (h : g o / 16 = 6) :
+    Spec.step false g p .ipAny { off := o, stop := S, lim := lim, nExt := ne }
+      = ⟨p, .ipv6, { off := o, stop := S, lim := lim, nExt := ne }, none⟩ := by
+  have a1 : ¬ (S - o < 1) := by omega
+  simp [Spec.step, Ctx.avail, a1, h]
+
+
+/-! ### whole configurations -/
+
+def setTpO (p : Packet) (t : Option TpR) : Packet :=
+  match t with
+  | none => p
+  | some x => setTp p x
+
+/-- what makes the transport part of the output decodable: a payload announced by a protocol number
+    (no transport header) must not be announced as UDP / TCP / ICMP, and an ICMPv4 timestamp header
+    must come with exactly 20 bytes. -/
+def TpOk (c : Cfg) (n : Nat) : Prop :=
+  match c.tp with
+  | none => c.last ≠ 17 ∧ c.last ≠ 6 ∧ c.last ≠ 1 ∧ c.last ≠ 58
+  | some (.icmp4 h) => Icmp4Ok h n
+  | some _ => True
+instance (c : Cfg) (n : Nat) : Decidable (TpOk c n) := by
+  unfold TpOk; split <;> infer_instance
+
+theorem outTp_some (c : Cfg) (pl : Bytes) (t : Tp) (htp : c.tp = some t) (hnet : ∀ a, c.net ≠ .arp a) :
+    ∃ ck, outTpHeader c pl = some (withCk (setLenT t pl.length) ck) := by
+  unfold outTpHeader
+  rw [htp, setUdpLen_some]
+  cases hn : c.net with
+  | arp a => exact absurd hn (hnet a)
+  | ipv4 ip e => exact ⟨_, rfl⟩
+  | ipv6 ip e => exact ⟨_, rfl⟩
+
+theorem walk_tp_cfg (c : Cfg) (pl : Bytes) (wt : optP Tp.WF c.tp) (hnet : ∀ a, c.net ≠ .arp a)
+    (hfit : tpHeaderLen c.tp + pl.length ≤ 65535) (ok : TpOk c pl.length)
+    (g : Mem) (k : Nat) (pk : Packet) (o : Nat) (lim : Dec.LenSource) (ne : Nat)
+    (hh : Holds g o (tpBytes (outTpHeader c pl))) :
+    walkN false g (k + 1) pk (.tp (endNum c))
+        { off := o, stop := o + (tpHeaderLen c.tp + pl.length), lim := lim, nExt := ne }
+      = (setTpO pk (expTp c.tp o pl.length), none) := by
+  rcases htp : c.tp with _ | t
+  · simp only [TpOk, htp] at ok
+    simp only [endNum, htp, expTp, setTpO]
+    exact walk_other g k pk c.last _ ok.1 ok.2.1 ok.2.2.1 ok.2.2.2
+  · obtain ⟨ck, hck⟩ := outTp_some c pl t htp hnet
+    rw [hck] at hh
+    rw [htp] at wt hfit
+    simp only [tpHeaderLen] at hfit
+    simp only [endNum, htp, tpHeaderLen]
+    cases t with
+    | udp u =>
+      simp only [Tp.headerLen, Udp.headerLen] at hfit
+      simp only [Tp.ipNumber, Tp.headerLen, Udp.headerLen, expTp, setTpO]
+      exact walk_udp g k pk o pl.length lim ne { sp := u.sp, dp := u.dp, len := (8 + pl.length) % 65536, ck := ck }
+        (by show (8 + pl.length) % 65536 = 8 + pl.length; omega) (by omega)
+        (by simpa [tpBytes, Tp.toBytes, setLenT, withCk] using hh)
+    | tcp h =>
+      simp only [Tp.ipNumber, Tp.headerLen, expTp, setTpO]
+      have := walk_tcp g k pk o pl.length lim ne { h with ck := ck } wt.2.2.2.2.2.2.2
+        (by simpa [tpBytes, Tp.toBytes, setLenT, withCk] using hh)
+      simpa [Tcp.headerLen] using this
+    | icmp4 h =>
+      simp only [TpOk, htp] at ok
+      simp only [Tp.ipNumber, Tp.headerLen, expTp, setTpO]
+      have := walk_icmp4 g k pk o pl.length lim ne { ty := h.ty, ck := ck } wt
+        (by simpa [Icmp4Ok, Icmp4.headerLen] using ok)
+        (by simpa [tpBytes, Tp.toBytes, setLenT, withCk] using hh)
+      simpa [Icmp4.headerLen] using this
+    | icmp6 h =>
+      simp only [Tp.headerLen, Icmp6.headerLen] at hfit
+      simp only [Tp.ipNumber, Tp.headerLen, Icmp6.headerLen, expTp, setTpO]
+      exact walk_icmp6 g k pk o pl.length lim ne hfit
+
+
+def cfgFrag (c : Cfg) : Bool :=
+  match c.net with
+  | .ipv4 ip _ => v4Frag ip
+  | .ipv6 _ e => extsFrag e
+  | .arp _ => false
+
+/-- a payload without transport header must not be announced by a number the IP layer itself
+    reads as an extension header -/
+def RawOk (c : Cfg) : Prop :=
+  c.tp = none →
+    match c.net with
+    | .ipv4 _ _ => c.last ≠ 51
+    | .ipv6 _ _ => c.last ≠ 0 ∧ c.last ≠ 43 ∧ c.last ≠ 44 ∧ c.last ≠ 51 ∧ c.last ≠ 60
+    | .arp _ => True
+instance (c : Cfg) : Decidable (RawOk c) := by
+  unfold RawOk; cases c.net <;> infer_instance
+
+/-- the net layer strict decoding finds at `o` -/
+def expNetAt (c : Cfg) (o n : Nat) : NetR :=
+  match c.net with
+  | .arp a => .arp ⟨o, a.headerLen⟩
+  | .ipv4 ip e =>
+    .ip (expIpv4 o ip.options.length (v4Frag ip)
+          (e.auth.map fun a => ⟨o + (20 + ip.options.length), a.headerLen⟩) (endNum c) e.headerLen
+          (tpHeaderLen c.tp + n))
+  | .ipv6 _ e =>
+    .ip (expIpv6 o (e.setNextHeaders (endNum c)).2 (endNum c) e.headerLen (tpHeaderLen c.tp + n) (extsFrag e))
+
+/-- the transport layer strict decoding finds at `o` (none behind ARP and in fragments) -/
+def expTpAt (c : Cfg) (o n : Nat) : Option TpR :=
+  match c.net with
+  | .arp _ => none
+  | _ => if cfgFrag c then none else expTp c.tp o n
+
+theorem endNum_ne (c : Cfg) (x : Nat) (h17 : x ≠ 17) (h6 : x ≠ 6) (h1 : x ≠ 1) (h58 : x ≠ 58)
+    (hl : c.tp = none → c.last ≠ x) : endNum c ≠ x := by
+  unfold endNum
+  rcases htp : c.tp with _ | ⟨h | h | h | h⟩ <;> simp [Tp.ipNumber] <;> first | exact hl htp | omega
+
+theorem walk_ipv4_cfg (c : Cfg) (pl : Bytes) (ip : Ipv4Header) (e : Ipv4Extensions) (hnet : c.net = .ipv4 ip e)
+    (wf : c.WF) (enc : Encodable c pl.length) (hraw : RawOk c) (htp : cfgFrag c = false → TpOk c pl.length)
+    (g : Mem) (k : Nat) (pk : Packet) (o : Nat) (lim : Dec.LenSource) (ne : Nat)
+    (hh : Holds g o (outNet c pl.length ++ tpBytes (outTpHeader c pl))) :
+    walkN false g (k + 2) pk .ipv4
+        { off := o, stop := o + (20 + ip.options.length + innerLen c pl.length), lim := lim, nExt := ne }
+      = (setTpO (setNet pk (expNetAt c o pl.length))
+          (expTpAt c (o + (20 + ip.options.length + e.headerLen)) pl.length), none) := by
+  have hnum := endNum_lt c wf
+  have hnotarp : ∀ a, c.net ≠ .arp a := by intro a; rw [hnet]; exact fun h => by cases h
+  have hnl := outNet_len c pl.length wf
+  rw [hnet] at hnl
+  simp only [Ipv4Header.headerLen] at hnl
+  obtain ⟨_, _, wn, wt, _⟩ := wf
+  rw [hnet] at wn
+  obtain ⟨wi, we⟩ := wn
+  obtain ⟨_, _, _, _, hfo, _, _, _, hs, hd, ho, ho4⟩ := wi
+  simp only [Encodable, hnet] at enc
+  have hinner : innerLen c pl.length = e.headerLen + tpHeaderLen c.tp + pl.length := by
+    simp [innerLen, hnet, Net.extsLen]
+  have hn51 : endNum c ≠ 51 :=
+    endNum_ne c 51 (by omega) (by omega) (by omega) (by omega) (by
+      intro h; have := hraw h; rw [hnet] at this; exact this)
+  have hfrag : cfgFrag c = v4Frag ip := by simp [cfgFrag, hnet]
+  have hhN := hh.left
+  have hhT := hh.right
+  rw [hnl] at hhT
+  have hout : outNet c pl.length
+      = (ipv4Out ip e (endNum c) (innerLen c pl.length)).toBytes ++ ipv4ExtsOut e (endNum c) := by
+    simp [outNet, hnet]
+  rw [hout] at hhN
+  have htl : (ipv4Out ip e (endNum c) (innerLen c pl.length)).totalLen
+      = 20 + ip.options.length + innerLen c pl.length := by
+    simp only [ipv4Out, Ipv4Header.headerLen]; omega
+  have hfit2 : tpHeaderLen c.tp + pl.length ≤ 65535 := by omega
+  -- what happens behind the IP layer
+  have tail : ∀ (pk' : Packet),
+      walkN false g (k + 1) pk' (if v4Frag ip then .done else .tp (endNum c))
+          { off := o + (20 + ip.options.length + e.headerLen),
+            stop := o + (20 + ip.options.length + e.headerLen) + (tpHeaderLen c.tp + pl.length),
+            lim := .ipv4HeaderTotalLen, nExt := ne }
+        = (setTpO pk' (expTpAt c (o + (20 + ip.options.length + e.headerLen)) pl.length), none) := by
+    intro pk'
+    have e1 : expTpAt c (o + (20 + ip.options.length + e.headerLen)) pl.length
+        = if v4Frag ip then none else expTp c.tp (o + (20 + ip.options.length + e.headerLen)) pl.length := by
+      simp [expTpAt, hnet, hfrag]
+    rw [e1]
+    by_cases hf : v4Frag ip = true
+    · simp only [hf, if_true, walkN_done, setTpO]
+    · simp only [hf, if_false]
+      exact walk_tp_cfg c pl wt hnotarp hfit2 (htp (by rw [hfrag]; simpa using hf)) g k pk' _ _ ne hhT
+  rcases hauth : e.auth with _ | a
+  · have hp : (ipv4Out ip e (endNum c) (innerLen c pl.length)).protocol = endNum c := by
+      simp [ipv4Out, ipv4ExtsSetNextHeaders, hauth]
+    have hel : e.headerLen = 0 := by simp [Ipv4Extensions.headerLen, hauth]
+    have hx : ipv4ExtsOut e (endNum c) = [] := by simp [ipv4ExtsOut, hauth]
+    rw [hx] at hhN
+    have st := step_ipv4_plain g pk o (o + (20 + ip.options.length + innerLen c pl.length)) lim ne
+      (ipv4Out ip e (endNum c) (innerLen c pl.length)) (tpHeaderLen c.tp + pl.length) ho ho4 hfo hs hd
+      (by rw [hp]; exact hnum) (by rw [hp]; exact hn51) (by rw [htl, hinner, hel]; simp [ipv4Out])
+      (by rw [htl]; omega) hhN.left (by rw [htl]; omega)
+    rw [walkN_next false g (k + 1) pk _ _ _ _ _ (by simp) st, hp]
+    have := tail (setNet pk (NetR.ip (expIpv4 o ip.options.length (v4Frag ip) none (endNum c) 0
+      (tpHeaderLen c.tp + pl.length))))
+    simp only [hel, Nat.add_zero] at this ⊢
+    have eo : (ipv4Out ip e (endNum c) (innerLen c pl.length)).options = ip.options := rfl
+    have ef : v4Frag (ipv4Out ip e (endNum c) (innerLen c pl.length)) = v4Frag ip := rfl
+    have en : expNetAt c o pl.length = .ip (expIpv4 o ip.options.length (v4Frag ip) none (endNum c) 0
+        (tpHeaderLen c.tp + pl.length)) := by simp [expNetAt, hnet, hauth, hel]
+    have es : o + (20 + ip.options.length + (0 + tpHeaderLen c.tp + pl.length))
+        = o + (20 + ip.options.length) + (tpHeaderLen c.tp + pl.length) := by omega
+    rw [eo, ef, htl, en, hinner, hel, es]
+    exact this
+  · rw [hauth] at we
+    have wa := authWithNext_wf a (endNum c) we hnum
+    have hp : (ipv4Out ip e (endNum c) (innerLen c pl.length)).protocol = 51 := by
+      simp [ipv4Out, ipv4ExtsSetNextHeaders, hauth]
+    have hel : e.headerLen = (Ipv6Exts.authWithNext a (endNum c)).headerLen := by
+      simp [Ipv4Extensions.headerLen, hauth, Ipv6Exts.authWithNext, IpAuthHeader.headerLen, IpAuthHeader.rawIcvLen]
+    have hx : ipv4ExtsOut e (endNum c) = (Ipv6Exts.authWithNext a (endNum c)).toBytes := by simp [ipv4ExtsOut, hauth]
+    rw [hx] at hhN
+    have st := step_ipv4_auth g pk o (o + (20 + ip.options.length + innerLen c pl.length)) lim ne
+      (ipv4Out ip e (endNum c) (innerLen c pl.length)) (Ipv6Exts.authWithNext a (endNum c))
+      (tpHeaderLen c.tp + pl.length) ho ho4 hfo hs hd hp wa
+      (by rw [htl, hinner, hel]; simp [ipv4Out]; omega)
+      (by rw [htl]; omega) hhN (by rw [htl]; omega)
+    rw [walkN_next false g (k + 1) pk _ _ _ _ _ (by simp) st]
+    have := tail (setNet pk (NetR.ip (expIpv4 o ip.options.length (v4Frag ip)
+      (some ⟨o + (20 + ip.options.length), e.headerLen⟩) (endNum c) e.headerLen
+      (tpHeaderLen c.tp + pl.length))))
+    have eo : (ipv4Out ip e (endNum c) (innerLen c pl.length)).options = ip.options := rfl
+    have ef : v4Frag (ipv4Out ip e (endNum c) (innerLen c pl.length)) = v4Frag ip := rfl
+    have en : expNetAt c o pl.length = .ip (expIpv4 o ip.options.length (v4Frag ip)
+        (some ⟨o + (20 + ip.options.length), e.headerLen⟩) (endNum c) e.headerLen
+        (tpHeaderLen c.tp + pl.length)) := by
+      simp [expNetAt, hnet, hauth, Ipv4Extensions.headerLen]
+    have enh : (Ipv6Exts.authWithNext a (endNum c)).nextHeader = endNum c := rfl
+    have es : o + (20 + ip.options.length + (e.headerLen + tpHeaderLen c.tp + pl.length))
+        = o + (20 + ip.options.length + e.headerLen) + (tpHeaderLen c.tp + pl.length) := by omega
+    have es2 : o + (20 + ip.options.length) + e.headerLen = o + (20 + ip.options.length + e.headerLen) := by omega
+    rw [eo, ef, htl, en, hinner, ← hel, enh, es, es2]
+    exact this
+
+
+theorem walk_ipv6_cfg (c : Cfg) (pl : Bytes) (ip : Ipv6Header) (e : Ipv6Exts) (hnet : c.net = .ipv6 ip e)
+    (wf : c.WF) (enc : Encodable c pl.length) (hraw : RawOk c) (htp : cfgFrag c = false → TpOk c pl.length)
+    (g : Mem) (k : Nat) (pk : Packet) (o : Nat) (lim : Dec.LenSource) (ne : Nat)
+    (hh : Holds g o (outNet c pl.length ++ tpBytes (outTpHeader c pl))) :
+    walkN false g (k + 2) pk .ipv6
+        { off := o, stop := o + (40 + innerLen c pl.length), lim := lim, nExt := ne }
+      = (setTpO (setNet pk (expNetAt c o pl.length)) (expTpAt c (o + (40 + e.headerLen)) pl.length), none) := by
+  have hnum := endNum_lt c wf
+  have hnotarp : ∀ a, c.net ≠ .arp a := by intro a; rw [hnet]; exact fun h => by cases h
+  have hnl := outNet_len c pl.length wf
+  rw [hnet] at hnl
+  simp only at hnl
+  obtain ⟨_, _, wn, wt, _⟩ := wf
+  rw [hnet] at wn
+  obtain ⟨wi, we⟩ := wn
+  obtain ⟨htc, _, _, _, _, hs, hd⟩ := wi
+  simp only [Encodable, hnet] at enc
+  have hinner : innerLen c pl.length = e.headerLen + tpHeaderLen c.tp + pl.length := by
+    simp [innerLen, hnet, Net.extsLen]
+  have hr : c.tp = none → c.last ≠ 0 ∧ c.last ≠ 43 ∧ c.last ≠ 44 ∧ c.last ≠ 51 ∧ c.last ≠ 60 := by
+    intro h; have := hraw h; rw [hnet] at this; exact this
+  have hn0 : endNum c ≠ 0 := endNum_ne c 0 (by omega) (by omega) (by omega) (by omega) (fun h => (hr h).1)
+  have hn43 : endNum c ≠ 43 := endNum_ne c 43 (by omega) (by omega) (by omega) (by omega) (fun h => (hr h).2.1)
+  have hn44 : endNum c ≠ 44 := endNum_ne c 44 (by omega) (by omega) (by omega) (by omega) (fun h => (hr h).2.2.1)
+  have hn51 : endNum c ≠ 51 := endNum_ne c 51 (by omega) (by omega) (by omega) (by omega) (fun h => (hr h).2.2.2.1)
+  have hn60 : endNum c ≠ 60 := endNum_ne c 60 (by omega) (by omega) (by omega) (by omega) (fun h => (hr h).2.2.2.2)
+  have hfrag : cfgFrag c = extsFrag e := by simp [cfgFrag, hnet]
+  have hhN := hh.left
+  have hhT := hh.right
+  rw [hnl] at hhT
+  have hout : outNet c pl.length
+      = (ipv6Out ip e (endNum c) (innerLen c pl.length)).toBytes ++ ipv6ExtsOut e (endNum c) := by
+    simp [outNet, hnet]
+  rw [hout] at hhN
+  have hpl : (ipv6Out ip e (endNum c) (innerLen c pl.length)).payloadLength = innerLen c pl.length := by
+    simp only [ipv6Out]; omega
+  have hel : (ipv6ExtsOut e (endNum c)).length = e.headerLen := by
+    rw [ipv6ExtsOut, stdBytes_length _ (setNextHeaders_wf e (endNum c) we hnum).1, setNextHeaders_headerLen]
+  have hfit2 : tpHeaderLen c.tp + pl.length ≤ 65535 := by omega
+  have st := step_ipv6 g pk o lim ne (ipv6Out ip e (endNum c) (innerLen c pl.length)) (ipv6ExtsOut e (endNum c))
+    (endNum c) (tpHeaderLen c.tp + pl.length) (extsFrag e) htc hs hd
+    (setNextHeaders_wf e (endNum c) we hnum).2 (by rw [hpl, hel, hinner]; omega) (by rw [hpl]; omega) hhN
+    (chain_exts g _ _ (endNum c) e we hnum hn0 hn60 hn43 hn44 hn51)
+  rw [hpl] at st
+  rw [walkN_next false g (k + 1) pk _ _ _ _ _ (by simp) st, hel]
+  have en : expNetAt c o pl.length = .ip (expIpv6 o (ipv6Out ip e (endNum c) (innerLen c pl.length)).nextHeader
+      (endNum c) e.headerLen (tpHeaderLen c.tp + pl.length) (extsFrag e)) := by
+    simp [expNetAt, hnet, ipv6Out]
+  have e1 : expTpAt c (o + (40 + e.headerLen)) pl.length
+      = if extsFrag e then none else expTp c.tp (o + (40 + e.headerLen)) pl.length := by
+    simp [expTpAt, hnet, hfrag]
+  have es : o + (40 + innerLen c pl.length) = o + (40 + e.headerLen) + (tpHeaderLen c.tp + pl.length) := by omega
+  have es2 : o + 40 + e.headerLen = o + (40 + e.headerLen) := by omega
+  rw [en, e1, es, es2]
+  by_cases hf : extsFrag e = true
+  · simp only [hf, if_true, walkN_done, setTpO]
+  · simp only [hf, if_false]
+    exact walk_tp_cfg c pl wt hnotarp hfit2 (htp (by rw [hfrag]; simpa using hf)) g k _ _ _ ne hhT
 
 end EpModel.Lemmas.BuilderParse
